@@ -4,7 +4,7 @@
 From Coq Require Import Extraction ExtrOcamlBasic ExtrOcamlString.
 From QSX Require Import Base.QSum LP.ILP LP.Cert LP.User LP.OptTest LP.Driver.
 (* one Require line per area may be added below *)
-From QSX Require Import Fac.Gauss Fac.Basis.
+From QSX Require Import Fac.Gauss Fac.Basis Fac.Factor.
 
 Extraction Language OCaml.
 Extraction "model.ml"
@@ -14,5 +14,5 @@ Extraction "model.ml"
   opt_test infeas_test wf_logicals
   exact_solver_gen exact_solver
   (* add names below, one line per area *)
-  inverse null_vector solve solve_left mat_vec vec_mat veqb check_binv_row check_tableau_row check_ftran check_btran basis_optimalstatus basis_dualstatus Bmat bazl zfull yuser nonbasic_ok xB_of pi_of load_ok objval_l coefAt
+  inverse null_vector solve solve_left mat_vec vec_mat veqb check_binv_row check_tableau_row check_ftran check_btran basis_optimalstatus basis_dualstatus Bmat bazl zfull yuser nonbasic_ok xB_of pi_of load_ok objval_l coefAt ftran btran ftran_dense check_repr wf_repr
   .
